@@ -119,6 +119,7 @@ type acSnap struct {
 	Goroutines int            `json:"goroutines"`
 	PkgRunning []string       `json:"package_goroutines_executing_package_code,omitempty"`
 	PkgTop     string         `json:"-"`
+	PkgRoot    string         `json:"-"` // of the first such goroutine: the package function its entry function called
 	PkgExiting int            `json:"package_goroutines_exiting,omitempty"`
 	WaitParked int            `json:"parked_in_Wait"`
 	CallParked int            `json:"calls_parked_waiting_for_result"`
@@ -188,6 +189,12 @@ func acParse(buf []byte, truncated bool) acSnap {
 			}
 			if s.PkgTop == "" {
 				s.PkgTop = top
+				for j := len(funcs) - 1; j >= 0; j-- {
+					if f := funcs[j]; strings.HasPrefix(f, acPkg) && f != entry && !strings.HasPrefix(f, entry+".") {
+						s.PkgRoot = f
+						break
+					}
+				}
 			}
 			n := min(len(funcs), 6)
 			s.PkgRunning = append(s.PkgRunning, fmt.Sprintf("%s %s (created by %s)", lines[0], strings.Join(funcs[:n], " < "), createdBy))
